@@ -294,6 +294,19 @@ class Builder:
         self.raw(b)
 
 
+def concrete_file(regions):
+    """io.BytesIO over a region list all of whose bytes are concrete ints (for plain-package replays); None otherwise"""
+    import io
+    out = bytearray()
+    for r in regions:
+        for i in range(r.length):
+            b = r.payload(i)
+            if not isinstance(b, int):
+                return None
+            out.append(b)
+    return io.BytesIO(bytes(out))
+
+
 class SymStream:
     """File object over a region list.  Positions are concrete except after a seek to a symbolic
     position, which is resolved lazily (must-value query, then comparison with the size, then
